@@ -6,10 +6,16 @@
    Output:  res=<pending|done|nil|buf|failed:…|starved> start|read=<n> left=<n> calls=<off>:<len>:<got>,…
      X <status word>                                             proc_get_status on one wait-status word (signed decimal)
    Output:  gen=<n|panic> model=<n|panic>     (regenerated expression trees of Gen/ProcStat.lean / the model's glibc shapes)
+     P <spawn 0|1> <in> <out> <err> | <open fds fd:cx,…> | <answers> | <query fds,…>
+        one os/spawn / os/execute;  redirection: i (inherit) | p (:pipe) | o (:err :out) | f<fd> (core/file) | s<fd> (core/stream)
+        answers (in call order of the kernel):  pipe results r:w or x (failure) for in,out,err; tmp0..2 (fd or x); spawn ok 0|1;
+        dup results for in,out,err (fd or x):   pin pout perr t0 t1 t2 ok din dout derr
+   Output:  res=<…> safe=<0|1> log=<syscalls> child=<fd:obj:cx …|FAILED> parent=<fd:obj:cx …> proc=<owns…>
 -/
 import Driver.Util
 import JanetModel.Stream.Model
 import JanetModel.Gen.ProcStat
+import JanetModel.Proc.SpawnLemmas
 open Driver JanetModel.Stream
 
 def parseAns (t : String) : Option Ans :=
@@ -66,6 +72,90 @@ def flatRead (chunk recvfrom : Bool) (base : Nat) : Nat → RSt Nat → List Ans
     | .pending => if o.rest.isEmpty then (o.st, .pending, acc ++ o.calls) else flatRead chunk recvfrom base fuel o.st o.rest (acc ++ o.calls)
     | r => (o.st, r, acc ++ o.calls)
 
+
+namespace P
+open JanetModel.Proc
+
+def parseRedir (t : String) : Option Redir :=
+  match t.toList with
+  | ['i'] => some .inherit
+  | ['p'] => some .pipe
+  | ['o'] => some .errToOut
+  | 'f' :: r => (String.ofList r).toNat?.map (fun fd => .handle fd true)
+  | 's' :: r => (String.ofList r).toNat?.map (fun fd => .handle fd false)
+  | _ => none
+
+def parseOptNat (t : String) : Option (Option Nat) :=
+  if t == "x" then some none else t.toNat?.map some
+
+def parsePipe (t : String) : Option (Option (Nat × Nat)) :=
+  if t == "x" then some none else
+  match t.splitOn ":" with
+  | [a, b] => match a.toNat?, b.toNat? with
+    | some a, some b => some (some (a, b))
+    | _, _ => none
+  | _ => none
+
+def parseOpen (t : String) : Option (List (Nat × Bool)) :=
+  if t == "-" then some [] else
+  (t.splitOn ",").foldr (fun x acc =>
+    match acc, x.splitOn ":" with
+    | some l, [a, c] => match a.toNat? with
+      | some a => some ((a, c == "1") :: l)
+      | none => none
+    | _, _ => none) (some [])
+
+def tabOf (l : List (Nat × Bool)) : Tab := fun x =>
+  match l.find? (fun e => e.1 == x) with
+  | some e => some ⟨.orig x, e.2⟩
+  | none => none
+
+def showObj : Obj → String
+  | .orig n => s!"o{n}"
+  | .pipeR k => s!"r{k}"
+  | .pipeW k => s!"w{k}"
+
+def showTab (t : Tab) (q : List Nat) : String :=
+  String.intercalate " " (q.filterMap fun fd => match t fd with
+    | some e => some s!"{fd}:{showObj e.obj}:{if e.cloexec then 1 else 0}"
+    | none => none)
+
+def showOpt : Option Nat → String
+  | some n => toString n
+  | none => "x"
+
+def showSys : Sys → String
+  | .pipe r w => s!"pipe:{r}:{w}"
+  | .pipeFail => "pipefail"
+  | .setCloexec fd => s!"cloexec:{fd}"
+  | .setNonblock fd => s!"nonblock:{fd}"
+  | .dupAbove s r => s!"dupfd:{s}:{showOpt r}"
+  | .close fd => s!"close:{fd}"
+  | .addDup2 a b => s!"adddup2:{a}:{b}"
+  | .addClose a => s!"addclose:{a}"
+  | .spawn ok => s!"spawn:{if ok then 1 else 0}"
+  | .dup s r => s!"dup:{s}:{showOpt r}"
+
+def showRes : SpawnRes → String
+  | .pipesFailed => "pipes-failed"
+  | .spawnFailed => "spawn-failed"
+  | .procFailed => "proc-failed"
+  | .ok p => s!"ok:{if p.ownsIn then 1 else 0}{if p.ownsOut then 1 else 0}{if p.ownsErr then 1 else 0}:{showOpt p.pin}:{showOpt p.pout}:{showOpt p.perr}"
+
+/-- the handles of the run, recomputed the way `osExecute` does, for the `Safe` certificate -/
+def run (moves : Bool) (rq : Req) (a : JanetModel.Proc.Ans) (t0 : Tab) (q : List Nat) : String :=
+  let r := osExecute moves rq a t0
+  let child := match r.child with
+    | some c => showTab c q
+    | none => "FAILED"
+  let lg := String.intercalate "," (r.log.map showSys)
+  let safe := match r.plumb with
+    | some p => if safeB p r.atSpawn then "1" else "0"
+    | none => "-"
+  s!"res={showRes r.res} safe={safe} log={lg} child={child} parent={showTab r.parent q}"
+
+end P
+
 def showOutcome : JanetModel.Proc.Outcome → String
   | .code n => toString n
   | .panic => "panic"
@@ -77,6 +167,15 @@ def step (_ : Unit) (toks : List String) : Unit × String :=
     | some w =>
       ((), s!"gen={showOutcome (JanetModel.Proc.decode JanetModel.Gen.ProcStat.branches w)} model={showOutcome (JanetModel.Proc.decode JanetModel.Proc.modelBranches w)}")
     | none => ((), "parse-error")
+  | ["P", sp, ri, ro, re, "|", op, "|", pin, pout, perr, t0, t1, t2, ok, din, dout, derr, "|", qs] =>
+    match P.parseRedir ri, P.parseRedir ro, P.parseRedir re, P.parseOpen op, P.parsePipe pin, P.parsePipe pout, P.parsePipe perr with
+    | some ri, some ro, some re, some op, some pin, some pout, some perr =>
+      match P.parseOptNat t0, P.parseOptNat t1, P.parseOptNat t2, P.parseOptNat din, P.parseOptNat dout, P.parseOptNat derr with
+      | some t0, some t1, some t2, some din, some dout, some derr =>
+        let q := (qs.splitOn ",").filterMap String.toNat?
+        ((), P.run JanetModel.Gen.ProcStat.movesStdSources ⟨sp == "1", ri, ro, re⟩ ⟨pin, pout, perr, t0, t1, t2, ok == "1", din, dout, derr⟩ (P.tabOf op) q)
+      | _, _, _, _, _, _ => ((), "parse-error")
+    | _, _, _, _, _, _, _ => ((), "parse-error")
   | "W" :: len :: dg :: rest =>
     match len.toNat?, parseAnss rest with
     | some len, some as =>
